@@ -77,12 +77,13 @@ var smPkgs = map[string]bool{
 }
 
 type Engine struct {
-	Dir    string
-	Pkgs   []*packages.Package
-	ByPath map[string]*packages.Package
-	Prog   *ssa.Program
-	SSA    map[string]*ssa.Package
-	Fset   *token.FileSet
+	Dir       string
+	transient map[*types.TypeName]bool
+	Pkgs      []*packages.Package
+	ByPath    map[string]*packages.Package
+	Prog      *ssa.Program
+	SSA       map[string]*ssa.Package
+	Fset      *token.FileSet
 
 	// all source functions (incl. anonymous) in SM packages, app and staking keeper
 	SrcFuncs []*ssa.Function
@@ -193,6 +194,19 @@ func Load(dir string) (*Engine, error) {
 	}
 	cur := e
 	for round := 0; round < 3; round++ {
+		if hov, hn := hoistCondCalls(cur.Pkgs, readSource(overlay)); len(hov) > 0 {
+			merged := map[string][]byte{}
+			for k, v := range overlay {
+				merged[k] = v
+			}
+			for k, v := range hov {
+				merged[k] = v
+			}
+			if nx, err := loadOverlay(dir, merged); err == nil {
+				cur, overlay = nx, merged
+				notes = append(notes, hn...)
+			}
+		}
 		ov, done, nts := inlineNewHelpers(cur.Pkgs, readSource(overlay))
 		notes = append(notes, nts...)
 		if len(ov) == 0 {
